@@ -75,8 +75,10 @@ Definition subdiff_scad (alpha gamma : R) (wj : R) : sdiff :=
   else if Rle_dec (Rabs wj) (alpha * gamma) then SPt ((Rsign wj * alpha * gamma - wj) / (gamma - 1))
   else SPt 0.
 
+(* the subdifferential of the indicator of [0, C]: normal cone at the bounds, {0} inside, EMPTY outside the box *)
 Definition subdiff_box (C : R) (wj : R) : sdiff :=
-  if Req_EM_T wj 0 then SLe 0 else if Req_EM_T wj C then SGe 0 else SPt 0.
+  if Req_EM_T wj 0 then SLe 0 else if Req_EM_T wj C then SGe 0
+  else if Rlt_dec wj 0 then SEmpty else if Rlt_dec C wj then SEmpty else SPt 0.
 
 Definition subdiff_posc (wj : R) : sdiff :=
   if Req_EM_T wj 0 then SLe 0 else if Rlt_dec 0 wj then SPt 0 else SEmpty.
@@ -255,3 +257,11 @@ Proof.
   all: rmax; rabs; try lra.
 Qed.
 End LogSum.
+
+(* outside the box the score is +inf: no tolerance accepts a box-infeasible coefficient of the working set *)
+Lemma box_score_infeasible C j w g : 0 <= C -> (w < 0 \/ C < w) -> score (subdiff_box C) j w g = PInf.
+Proof.
+  intros HC Hw. unfold score, subdiff_box.
+  destruct (Req_EM_T w 0) as [e|_]; [lra|]. destruct (Req_EM_T w C) as [e|_]; [lra|].
+  destruct (Rlt_dec w 0) as [_|n0]; [reflexivity|]. destruct (Rlt_dec C w) as [_|n1]; [reflexivity|lra].
+Qed.
